@@ -50,6 +50,7 @@ NextStep ==
         \/ /\ Len(heap) < MaxH
            /\ \E s \in Sels[SelSet] : LET st == <<"select", h, s[1], s[2]>> IN Step(st) /\ Rec(st)
         \/ \E a \in Asgs[AsgSet] : LET st == <<"assign", h, a[1], a[2], a[3]>> IN Step(st) /\ Rec(st)
+        \/ AsgSet = "full" /\ LET st == <<"fill", h, 93>> IN Step(st) /\ Rec(st)
         \/ /\ Len(heap) < MaxH
            /\ \E f \in Funs[FunSet] :
                 LET st == CASE f[1] = "ufunc" /\ f[2] = "self" -> <<"ufunc", "add", <<"h", h>>, <<"h", h>>>>
@@ -63,7 +64,7 @@ Spec == Init /\ [][NextStep]_vars
 \* C10 at level A: a read changes no content
 ReadPure == [][(hist' # hist /\ hist'[Len(hist')][1] = "read") => heap' = heap /\ alias' = alias]_vars
 \* C03 / C06: an assignment changes only the aliases of its target, and never any row length
-AssignFrame == [][(hist' # hist /\ hist'[Len(hist')][1] = "assign") =>
+AssignFrame == [][(hist' # hist /\ hist'[Len(hist')][1] \in {"assign", "fill"}) =>
                     \A g \in Handles : /\ Lens(heap'[g][2]) = Lens(heap[g][2])
                                        /\ (alias[g] # alias[hist'[Len(hist')][2]] => heap'[g] = heap[g])]_vars
 \* C06: a derived handle is an alias only through the whole-array forms
